@@ -32,7 +32,7 @@ m = {
               'source_commits': [], 'add_only': True},
     'engines': [{'name': 'lean-model+correspondence', 'path': 'lean/ + harness/',
                  'serves_properties': [c['property_id'] for c in checks],
-                 'kind_free_text': 'hand-written executable Lean 4 model with machine-checked property theorems (lake build + #print axioms audit), tied to /repo (a) by a differential correspondence run against the compiled model driver, (b) by constants and tables regenerated from /repo on every run, and (c) for the rule bodies, the fits methods of the four checkers, the tag scanner, Policy._calculate_type and the decision methods of Guard by a Python-to-Lean translator (harness/pytolean.py) whose output is proved equal to the model on every run (lean/Gen)'}],
+                 'kind_free_text': 'hand-written executable Lean 4 model with machine-checked property theorems (lake build + #print axioms audit), tied to /repo (a) by a differential correspondence run against the compiled model driver, (b) by constants and tables regenerated from /repo on every run, and (c) for 98 method bodies of vakt (the rule bodies, the checkers, the tag scanner, the guard with its log records, the policy object, the inquiry initialiser, the migration runner, the storage wrappers and the Memory / Redis / MongoDB / SQL storage methods) by a Python-to-Lean translator (harness/pytolean.py; effects are made explicit by threading a world value) whose output is proved equal to the model on every run (lean/Gen)'}],
     'checks': checks,
     'notes': 'See DESIGN.md. exit 0 = held; exit 1 = VIOLATION line; exit 2 = machinery broken (never a verdict).',
     'not_applicable': [{'property_id': p, 'reason': 'check not built yet in this session (work in progress, see DESIGN.md section 9); not a claim that the technique cannot apply'}
